@@ -28,6 +28,9 @@ pub enum Body {
     /// Copy only: `simcat B < <(simcat B)` — the stage's input read by a process substitution
     /// written inside the stage
     ProcCat,
+    /// Copy only: `{ simcat B & wait; }` — the stage's input read by a background job of the
+    /// stage
+    BgCat,
     /// Emit only, joined to the next stage with `|&`: every line is followed by a line on
     /// standard error
     LoopBoth,
@@ -182,6 +185,8 @@ fn render_inner(st: &Stage, idx: usize) -> String {
         (Role::Copy { buf }, Body::Printf | Body::EchoVar | Body::LoopBoth) => format!("simcat {buf}"),
         (Role::Copy { buf }, Body::SubstCat) => format!("echo \"$(simcat {buf})\""),
         (Role::Copy { buf }, Body::ProcCat) => format!("simcat {buf} < <(simcat {buf})"),
+        (Role::Copy { buf }, Body::BgCat) => format!("simcat {buf} & wait"),
+        (Role::Emit { n, tag, pad }, Body::BgCat) => format!("simseq {n} {tag} {pad}"),
         (Role::Emit { n, tag, pad }, Body::ProcCat) => format!("simseq {n} {tag} {pad}"),
         (Role::Emit { n, tag, pad }, Body::SubstCat) => format!("simseq {n} {tag} {pad}"),
         (Role::Emit { n, tag, pad }, Body::Loop) => {
@@ -192,7 +197,7 @@ fn render_inner(st: &Stage, idx: usize) -> String {
         (Role::Copy { buf }, Body::Builtin) => format!("simcat {buf}"),
         (Role::Copy { .. }, Body::Loop) => format!("while IFS= read -r {v}; do echo \"${v}\"; done"),
         (Role::Tag { prefix }, _) => format!("while IFS= read -r {v}; do echo \"{prefix}${v}\"; done"),
-        (Role::Head { k, buf }, Body::Builtin | Body::Printf | Body::EchoVar | Body::Mapfile | Body::LoopBoth | Body::SubstCat | Body::ProcCat) => format!("simhead {k} {buf}"),
+        (Role::Head { k, buf }, Body::Builtin | Body::Printf | Body::EchoVar | Body::Mapfile | Body::LoopBoth | Body::SubstCat | Body::ProcCat | Body::BgCat) => format!("simhead {k} {buf}"),
         (Role::Head { k, .. }, Body::Loop) => format!(
             "n{idx}=0; while IFS= read -r {v}; do echo \"${v}\"; n{idx}=$((n{idx}+1)); if [ $n{idx} -ge {k} ]; then break; fi; done"
         ),
@@ -236,8 +241,8 @@ fn is_compound_text(st: &Stage) -> bool {
         (&st.role, &st.body),
         (Role::Emit { .. }, Body::Builtin | Body::External | Body::Printf)
             | (Role::Copy { .. }, Body::Builtin | Body::External | Body::Printf | Body::EchoVar | Body::LoopBoth | Body::SubstCat | Body::ProcCat)
-            | (Role::Head { .. }, Body::Builtin | Body::External | Body::Printf | Body::EchoVar | Body::Mapfile | Body::LoopBoth | Body::SubstCat | Body::ProcCat)
-            | (Role::Emit { .. }, Body::Mapfile | Body::SubstCat | Body::ProcCat)
+            | (Role::Head { .. }, Body::Builtin | Body::External | Body::Printf | Body::EchoVar | Body::Mapfile | Body::LoopBoth | Body::SubstCat | Body::ProcCat | Body::BgCat)
+            | (Role::Emit { .. }, Body::Mapfile | Body::SubstCat | Body::ProcCat | Body::BgCat)
             | (Role::Exit { .. }, _)
     )
 }
@@ -269,7 +274,7 @@ pub fn render(case: &Case) -> String {
         let inner = render_inner(st, i);
         let text = match st.wrapper {
             Wrapper::None => {
-                if is_compound_text(st) && (st.body == Body::Mapfile || !matches!(st.role, Role::Tag { .. } | Role::Copy { .. } | Role::EmitForever)) {
+                if is_compound_text(st) && (matches!(st.body, Body::Mapfile | Body::BgCat) || !matches!(st.role, Role::Tag { .. } | Role::Copy { .. } | Role::EmitForever)) {
                     // a list needs grouping to be one stage
                     format!("{{ {inner}; }}")
                 } else {
@@ -742,6 +747,7 @@ impl C11 {
                     0 => Body::Mapfile,
                     1 => Body::SubstCat,
                     2 => Body::ProcCat,
+                    3 => Body::BgCat,
                     _ => body,
                 }
             } else {
@@ -804,7 +810,7 @@ impl C11 {
             // written inside stages or wrapped around the pipeline add participants, a stage
             // that also writes to stderr doubles the payload, and `read`-driven consumers spend
             // several steps per line
-            let extra: u64 = stages.iter().filter(|st| matches!(st.body, Body::ProcCat | Body::SubstCat | Body::EchoVar | Body::Mapfile)).count() as u64
+            let extra: u64 = stages.iter().filter(|st| matches!(st.body, Body::ProcCat | Body::SubstCat | Body::EchoVar | Body::Mapfile | Body::BgCat)).count() as u64
                 + u64::from(matches!(wrap, Wrap::ProcSubstIn | Wrap::ProcSubstOut | Wrap::BgProcSubstIn { .. } | Wrap::CmdSubstProcOut | Wrap::NestedCmdSubst | Wrap::Background)) * 2;
             let doubled = if stages.first().is_some_and(|st| st.body == Body::LoopBoth) { 3 } else { 1 };
             5_000 + bytes * doubled * (nstages as u64 + extra) * 24
